@@ -1,4 +1,5 @@
 import Holpy.C14.Proofs
+import Holpy.C14.Closing
 /-
 C14 — property theorems (apply half of "a suggestion does what it says"), on the model of
 `ProofState.apply_tactic` of Holpy/C13/Model.lean.  `search` advertises the gaps of the proof term
@@ -21,9 +22,35 @@ theorem open_goals_subset_advertised_partial (t : Option Seq) (s s' : Proof) (id
     cntList t s' ≤ cntList t s + cntList t (new.map (·.item)) :=
   cnt_applyTactic t s s' id new h
 
-/-- A proof term without gaps (a suggestion advertised as solving, `_goal = []`) leaves no gap
-open that was not open before. -/
-theorem solving_shape_leaves_no_new_gap (t : Option Seq) (s s' : Proof) (id : IId) (new : List NewLine)
+/-- The exported lines carry the ids `id, id+1, …` — how `ProofTerm.export(prefix=id,
+subproof=False)` numbers them (the harness compares every captured export with this). -/
+def exportedAt (id : IId) (new : List NewLine) : Prop :=
+  ∀ k (h : k < new.length), (new[k]).item.id = incrId id k
+
+/-- With the goal line counted: after `apply_tactic(id, …)` the open gaps stating `t` are at most
+the earlier ones *minus the goal line* plus the `sorry` lines of the proof term stating `t`; so the
+goal itself stays open only if the term re-states it as one of its gaps. -/
+theorem open_goals_subset_advertised (t : Option Seq) (s s' : Proof) (id : IId) (new : List NewLine) (cur : Item)
+    (hcur : findItem s id = some cur) (hid : exportedAt id new)
+    (h : applyTactic s id new = .ok s') :
+    cntList t s' + cntItem t cur ≤ cntList t s + cntList t (new.map (·.item)) :=
+  cnt_applyTactic_goal t s s' id new cur hcur hid h
+
+/-- A proof term without `sorry` lines (a suggestion advertised as solving, `_goal = []`) closes
+exactly the goal: for every sequent `t` the gaps stating `t` afterwards are those before without the
+goal line (`cntItem t cur` is 1 for the goal's own sequent — see the example — and 0 otherwise, the
+goal being a `sorry` line without subproof). -/
+theorem solving_shape_closes_exactly_the_goal (t : Option Seq) (s s' : Proof) (id : IId) (new : List NewLine)
+    (cur : Item) (hcur : findItem s id = some cur) (hid : exportedAt id new)
+    (hs : ∀ l ∈ new, l.item.rule ≠ ruleSorry) (hnew : cntList t (new.map (·.item)) = 0)
+    (h : applyTactic s id new = .ok s') : cntList t s' + cntItem t cur = cntList t s := by
+  have := cnt_applyTactic_solving t s s' id new cur hcur hs hid h
+  omega
+
+/-- Weaker form without the hypothesis on the exported ids: a proof term without gaps leaves no gap
+open that was not open before.  Partial: by itself this would allow the goal to stay open; that it
+does not is `solving_shape_closes_exactly_the_goal`. -/
+theorem solving_shape_leaves_no_new_gap_partial (t : Option Seq) (s s' : Proof) (id : IId) (new : List NewLine)
     (hnew : cntList t (new.map (·.item)) = 0)
     (h : applyTactic s id new = .ok s') : cntList t s' ≤ cntList t s := by
   have := cnt_applyTactic t s s' id new h
@@ -57,6 +84,25 @@ example : (match applyTactic s0 [0] new0 with
     | .error _ => false) = true := by decide
 
 example : cntList (some ⟨7, []⟩) (new0.map (·.item)) = 1 ∧ cntList (some ⟨7, []⟩) s0 = 0 := by decide
+
+example : exportedAt [0] new0 := by
+  intro k hk
+  have : k = 0 ∨ k = 1 ∨ k = 2 := by simp [new0] at hk; omega
+  rcases this with h | h | h <;> subst h <;> rfl
+
+/-- a solving term: one line, no gap; the goal `⊢ p5` is the only gap before and none is left -/
+def new1 : List NewLine := [⟨.mk [0] 9 [] (some ⟨5, []⟩) false [], false⟩]
+
+example : (∀ l ∈ new1, l.item.rule ≠ ruleSorry) ∧ exportedAt [0] new1 ∧
+    findItem s0 [0] = some (.mk [0] ruleSorry [] (some ⟨5, []⟩) false []) ∧
+    cntItem (some ⟨5, []⟩) (.mk [0] ruleSorry [] (some ⟨5, []⟩) false []) = 1 ∧
+    (match applyTactic s0 [0] new1 with
+      | .ok s' => cntList (some ⟨5, []⟩) s' == 0 && cntList (some ⟨5, []⟩) s0 == 1 && wf s'
+      | .error _ => false) = true := by
+  refine ⟨by decide, ?_, rfl, by decide, by decide⟩
+  intro k hk
+  have : k = 0 := by simp [new1] at hk; omega
+  subst this; rfl
 
 example : (match forwardFact s0 [0] 6 [] (some ⟨3, []⟩) with
     | .ok s' => wf s' && s'.length == 3 && sorrysList s' == [some ⟨5, []⟩]
